@@ -116,6 +116,7 @@ impl<'a> Gen<'a> {
     fn history(&mut self, ops: &mut Vec<Op>, len: usize, faulty: bool) {
         let d = self.slot();
         let t = self.slot();
+        let mut dom_alive = false;
         if self.free_parse_ok && self.wl.chance(1, 6) {
             let plan = self.plan(faulty);
             ops.push(Op::FreeParse { plan, tree: t });
@@ -123,12 +124,10 @@ impl<'a> Gen<'a> {
             let plan = self.plan(faulty);
             ops.push(Op::ParseDom { plan, dom: d });
             ops.push(Op::BuildTree { dom: d, tree: t });
-            match self.wl.below(3) {
-                0 => ops.push(Op::DropDom { dom: d }),
-                1 => {
-                    // build a second tree from the same DOM later
-                }
-                _ => {}
+            if self.wl.below(3) == 0 {
+                ops.push(Op::DropDom { dom: d });
+            } else {
+                dom_alive = true;
             }
         }
         let mut live = vec![t];
@@ -150,10 +149,14 @@ impl<'a> Gen<'a> {
                 } else {
                     self.render(ops, tree, true);
                 }
-            } else {
+            } else if dom_alive {
+                // a second tree from the same DOM
                 let t2 = self.slot();
                 ops.push(Op::BuildTree { dom: d, tree: t2 });
                 live.push(t2);
+            } else {
+                let tree = self.wl.pick(&live);
+                self.render(ops, tree, false);
             }
         }
         // consume what is left, in arbitrary order
@@ -265,22 +268,30 @@ pub fn generate(run_seed: u64) -> Scenario {
                         let to = ((tid + 1 + g.wl.usize_below(nthreads - 1)) % nthreads) as u32;
                         ops.push(Op::SendTree { tree: t, to });
                     }
-                    if g.wl.chance(1, 2) {
-                        let t = g.slot();
-                        ops.push(Op::RecvTree { tree: t });
-                        g.render(&mut ops, t, false);
-                        g.render(&mut ops, t, true);
-                    }
                 }
-                // late receive so that hand-offs are usually picked up
-                let t = g.slot();
-                ops.push(Op::RecvTree { tree: t });
-                g.render(&mut ops, t, true);
             }
         }
         if ops.len() > 14 {
             ops.truncate(14);
         }
+        // Repeat one op verbatim (fresh hash-map keys, later position in the
+        // history; in interleaved runs also on another thread's schedule).
+        if g.wl.chance(1, 2) {
+            let cands: Vec<usize> = (0..ops.len())
+                .filter(|&i| {
+                    matches!(
+                        ops[i],
+                        Op::OneShotString { .. } | Op::OneShotLines { .. } | Op::OneShotColoured { .. }
+                    )
+                })
+                .collect();
+            if !cands.is_empty() {
+                let i = g.wl.pick(&cands);
+                let dup = ops[i].clone();
+                ops.push(dup);
+            }
+        }
+
         // preemption points inside tree building / rendering
         let mut preempt_ticks = Vec::new();
         if class == 2 {
@@ -306,6 +317,34 @@ pub fn generate(run_seed: u64) -> Scenario {
             ops,
             preempt_ticks,
         });
+    }
+    // Every tree handed to a thread is picked up there (bounded polite
+    // receive) and rendered, at a random position of the receiver's history.
+    if class == 2 {
+        let mut sends: Vec<usize> = Vec::new();
+        for t in &threads {
+            for op in &t.ops {
+                if let Op::SendTree { to, .. } = op {
+                    sends.push(*to as usize % nthreads);
+                }
+            }
+        }
+        for to in sends {
+            let t = g.slot();
+            let mut extra = vec![Op::RecvTree { tree: t }];
+            g.render(&mut extra, t, false);
+            if g.wl.chance(1, 2) {
+                let c = g.slot();
+                extra.push(Op::CloneTree { from: t, to: c });
+                g.render(&mut extra, c, true);
+            }
+            g.render(&mut extra, t, true);
+            let len = threads[to].ops.len();
+            let at = if g.wl.chance(1, 2) { len } else { g.wl.usize_below(len + 1) };
+            for (k, op) in extra.into_iter().enumerate() {
+                threads[to].ops.insert(at + k, op);
+            }
+        }
     }
 
     let sched = if nthreads == 1 {
